@@ -107,6 +107,7 @@ def check(case, rec):
     if writer == "convert" and (n == 0 or m == 0):
         writer = "to_hdf5"   # convert needs a loadable (non-empty) input
     gen_by = case["generated_by"]
+    where = None
     with tempfile.TemporaryDirectory(prefix="vf-c04-", dir=TMP) as d:
         path = os.path.join(d, "t.biom")
         if writer == "convert":
@@ -137,9 +138,28 @@ def check(case, rec):
                     t.create_date = c01.date_from_json(case["date"])
                     src["__attr_date__"] = True
                 with h5py.File(path, "w") as f:
-                    t.to_hdf5(f, gen_by, compress=case["compress"])
+                    # written into the file itself or into a group of it
+                    # ("h5grp : a h5py Group")
+                    if mode == "omitted" and len(gen_by) % 2:
+                        where = "tables/one"
+                        f.create_group("tables").create_group("other")
+                        t.to_hdf5(f.create_group(where), gen_by,
+                                  compress=case["compress"])
+                    else:
+                        t.to_hdf5(f, gen_by, compress=case["compress"])
         with h5py.File(path, "r") as f:
-            dec = h5spec.decode(f)
+            if where:
+                rec.cls("written-into-a-sub-group")
+                stray = sorted(set(f.keys()) - {"tables"}) + \
+                    sorted(set(f["tables"].keys()) - {"one", "other"}) + \
+                    sorted(f["tables/other"].keys()) + sorted(f.attrs.keys())
+                if stray:
+                    raise Violation("spec-conformance", "to_hdf5(group) "
+                                    "wrote outside the group it was given: "
+                                    "%r" % (stray,))
+                dec = h5spec.decode(f[where])
+            else:
+                dec = h5spec.decode(f)
 
     def bad(sub, msg):
         raise Violation(sub, "%s (writer %s)" % (msg, writer))
